@@ -233,7 +233,7 @@ def run(ctx, replay=None):
     elif len(choices) > 120000:
         choices = rnd.sample(choices, 120000)
     cases = F.pmap(family_case, [(ch, fx) for ch in choices])
-    seeds = [(ctx.seed * 1000003 + i,) for i in range(ctx.pick(2500, 60000))]
+    seeds = [(ctx.seed * 1000003 + i,) for i in range(ctx.pick(2500, 30000))]
     cases += F.pmap(rand_case, seeds)
     F.judge(ctx, 'Trace_Core', cases, canaries, invariants=c08.INVS, describe=describe, key_fields=('model', 'inc'),
             nontrivial=lambda c: any(e['ev'] == 'fetch' for e in c['trace']))
